@@ -95,6 +95,10 @@ def distribute(computation_graph: ComputationGraph,
             if agent.hosting_cost(comp) == 0:
                 must_host[agent.name].append(comp)
     logger.debug(f"Must host: {must_host}")
+    pinned = [c for comps in must_host.values() for c in comps]
+    if len(pinned) != len(set(pinned)):
+        raise ImpossibleDistributionException(
+            'Hosting cost 0 on several agents for the same computation')
 
     return factor_graph_lp_model(computation_graph, agents, must_host,
                                  computation_memory, communication_load)
@@ -302,6 +306,8 @@ def _build_alphaijk_binvars(cg: ComputationsFactorGraph, agents_names: Iterable[
     # As these variables are only used in the objective function,
     # when optimizing communication cost, we only need them when (i,j) is an
     # edge in the factor graph
+    if not cg.links:
+        return {}
     alphas = LpVariable.dict('a',
                              ([(link.variable_node,
                                 link.factor_node) for
